@@ -438,7 +438,20 @@ func runC41(c *core.Ctx) {
 		isCnt := func(v ssa.Value) bool {
 			v = ir.Strip(v)
 			if b, ok := v.(*ssa.BinOp); ok && b.Op == token.ADD {
-				return counterOfAdd(b) != ""
+				if counterOfAdd(b) != "" {
+					return true
+				}
+				// `n := m[k] + 1; m[k] = n`: the incremented count of a map counter, stored back into that map
+				if lk, isLk := ir.Strip(b.X).(*ssa.Lookup); isLk && b.Referrers() != nil {
+					if k, okk := ir.ConstInt(b.Y); okk && k == 1 {
+						for _, r := range *b.Referrers() {
+							if mu, isMu := r.(*ssa.MapUpdate); isMu && mu.Map == lk.X && mu.Value == ssa.Value(b) {
+								return true
+							}
+						}
+					}
+				}
+				return false
 			}
 			if _, ok := v.(*ssa.Lookup); ok {
 				return true
@@ -593,7 +606,13 @@ func runC41(c *core.Ctx) {
 		// from one such store the next one is not reachable without creating a new set (one set shared by all
 		// proposers would count the union of the signers of conflicting proposals)
 		okOwn, nSets := true, 0
-		for _, b := range fn.Blocks {
+		ownHosts, releaseOwn := hostsWithHelpers(fn)
+		defer releaseOwn()
+		var ownBlocks []*ssa.BasicBlock
+		for _, h := range ownHosts {
+			ownBlocks = append(ownBlocks, h.Blocks...)
+		}
+		for _, b := range ownBlocks {
 			for _, in := range b.Instrs {
 				mu, ok := in.(*ssa.MapUpdate)
 				if !ok || signers == nil || ir.Strip(mu.Map) != signers {
@@ -608,7 +627,7 @@ func runC41(c *core.Ctx) {
 					okOwn = false
 					continue
 				}
-				r := ir.NewReach(fn)
+				r := ir.NewReach(mu.Parent())
 				r.Barrier[mk] = true
 				r.Run(mu)
 				if r.Instr(mu) {
@@ -751,6 +770,18 @@ func innerSetOf(v ssa.Value, depth int) ssa.Value {
 				}
 			}
 		}
+	case *ssa.Call:
+		// a module helper that looks the set up (creating it on first use) and hands it back
+		via, release := valueVia(x)
+		defer release()
+		if via == ssa.Value(x) {
+			return nil
+		}
+		o := innerSetOf(via, depth+1)
+		if pp, isP := o.(*ssa.Parameter); isP {
+			o = ir.Strip(pp) // the outer map is the caller's
+		}
+		return o
 	case *ssa.Phi:
 		var outer ssa.Value
 		for _, e := range x.Edges {
